@@ -1,5 +1,6 @@
 CONSTANTS MaxIn = 2  MaxOut = 1
 CONSTANT BaseType <- BadBaseType
+CONSTANT HtSet <- HtAll
 SPECIFICATION Spec
 INVARIANTS TwoFormsLemma MaskLemma
 CHECK_DEADLOCK FALSE
